@@ -45,13 +45,19 @@ def execute_run(mod, pid, seed, run_index, tier, replay=None, params=None, timeo
     from . import spec as _spec
 
     _spec.reset_names()
+    # the watchdog counts the run's own CPU time (a loaded machine must not turn a slow run into a harness error); a generous
+    # real-time alarm stays as a backstop for a run that blocks without computing
     old = signal.signal(signal.SIGALRM, _alarm)
-    signal.setitimer(signal.ITIMER_REAL, timeout)
+    oldv = signal.signal(signal.SIGVTALRM, _alarm)
+    signal.setitimer(signal.ITIMER_VIRTUAL, timeout)
+    signal.setitimer(signal.ITIMER_REAL, timeout * 10)
     try:
         mod.run(ctx)
     finally:
+        signal.setitimer(signal.ITIMER_VIRTUAL, 0)
         signal.setitimer(signal.ITIMER_REAL, 0)
         signal.signal(signal.SIGALRM, old)
+        signal.signal(signal.SIGVTALRM, oldv)
     return ctx
 
 
